@@ -530,6 +530,7 @@ func scenarioC20Service(rc *RunCtx) *Violation {
 	rc.Probe("service_session")
 	rc.Stats.Probes["service_requests_from_service"] += c.svcRequests
 	rc.Stats.Probes["short_stdin_read"] += st.ShortReads
+	rc.Stats.Probes["coalesced_stdin_read"] += st.Coalesced
 	if abrupt {
 		rc.Probe("service_abrupt_eof")
 	}
